@@ -115,7 +115,7 @@ func drawProfile(r *rand.Rand, f func(...float64) float64) Profile {
 	}
 }
 
-var AccountPool = []string{"a", "b", "c", "x:y", "x", "users:001", "d",
+var AccountPool = []string{"a", "b", "c", "x:y", "x", "users:001", "d", "2024:fees", "-x-", "007",
 	"orgs:0123456789abcdef0123456789abcdef:users:fedcba9876543210fedcba9876543210:main",
 	"orgs:0123456789abcdef0123456789abcdef:users:fedcba9876543210fedcba9876543210:main:sub"}
 var AssetPool = []string{"USD", "EUR/2", "COIN", "EUR"}
